@@ -461,10 +461,22 @@ def obligations_converter(rep, repo, m):
         if isinstance(s, ast.Assign) and isinstance(s.value, ast.Call) and norm(s.value.func).endswith("_get_degree_and_size") \
                 and isinstance(s.targets[0], ast.Tuple) and len(s.targets[0].elts) == 2:
             unpacked = s
+    # a mask that is named first (`has_this_size = sizes == size; degrees[has_this_size] = deg`) stands for its expression
+    named = {}
+    for s in loop.body:
+        if isinstance(s, ast.Assign) and len(s.targets) == 1 and isinstance(s.targets[0], ast.Name):
+            named.setdefault(s.targets[0].id, []).append(s.value)
     for s in loop.body:  # the positional store into the result array is a top-level statement of the loop
-        if isinstance(s, ast.Assign) and isinstance(s.targets[0], ast.Subscript) and \
-                any(isinstance(x, ast.Name) and x.id in copies for x in ast.walk(s.targets[0].slice)):
-            store = s
+        if isinstance(s, ast.Assign) and isinstance(s.targets[0], ast.Subscript):
+            sl = s.targets[0].slice
+            if isinstance(sl, ast.Name) and len(named.get(sl.id, [])) == 1:
+                import copy
+                s2 = copy.deepcopy(s)
+                s2.targets[0].slice = copy.deepcopy(named[sl.id][0])
+                s = ast.fix_missing_locations(s2)
+                sl = s.targets[0].slice
+            if any(isinstance(x, ast.Name) and x.id in copies for x in ast.walk(sl)):
+                store = s
     if call is None and unpacked is not None:
         # normalise to the subscript form: <first target> = resolver(...)[0]
         call = ast.Assign(targets=[unpacked.targets[0].elts[0]],
